@@ -126,7 +126,13 @@ fn read_file_to_string(s: &str) -> IO<String> {
 fn read_file(file: &GluonFile, count: usize) -> IO<RuntimeResult<Option<Vec<u8>>, String>> {
     let mut file = file.0.lock().unwrap();
     let file = unwrap_file!(file);
-    let mut buffer = Vec::with_capacity(count);
+    let mut buffer = Vec::new();
+    if buffer.try_reserve_exact(count).is_err() {
+        return IO::Value(RuntimeResult::Panic(format!(
+            "Unable to allocate a buffer of {} bytes",
+            count
+        )));
+    }
 
     unsafe {
         buffer.set_len(count);
